@@ -104,7 +104,7 @@ pub async fn do_dist(db: &Db, req: &Value) -> Value {
     let t = InProc { peer, faults, log: Mutex::new(vec![]), want_payload: req["want_payload"].as_bool().unwrap_or(false) };
     if req["gather_plan"].as_bool().unwrap_or(false) {
         return match query_engine::distributed::gather::plan_gather(&db.ctx, sql) {
-            Ok(p) => json!({"ok": true, "gather": format!("{p:?}")}),
+            Ok(p) => json!({"ok": true, "gather": serde_json::to_value(&p).unwrap_or(Value::Null)}),
             Err(e) => err_json(&e),
         };
     }
